@@ -47,7 +47,13 @@ func (t *Timer) Set(dur time.Duration, cb func()) error {
 	if err == nil {
 		// TODO error checking here
 		t.slot.Set(ReadEvent, func(error) {
-			_, _ = syscall.Read(t.fd, t.b[:])
+			if _, err := syscall.Read(t.fd, t.b[:]); err == syscall.EAGAIN {
+				// The timer did not expire: this is a stale event of a previous schedule that expired in the same poll
+				// cycle in which it was cancelled and set again. Keep waiting for the real expiration.
+				if t.poller.SetRead(&t.slot) == nil {
+					return
+				}
+			}
 			cb()
 		})
 		err = t.poller.SetRead(&t.slot)
